@@ -71,4 +71,40 @@ func init() {
 (declare-fun warmup (Ref) Int)
 (assert (forall ((s Ref)) (! (>= (warmup s) 0) :pattern ((warmup s)))))
 `})
+	// action streams (Int elements: Sell=-1, Hold=0, Buy=1)
+	// nlast(a,k): last non-Hold action emitted by NormalizeActions after k inputs (Sell before any)
+	addPrelude(&PreludeFn{Name: "nlast", Args: []string{"stream", "int"}, Ret: "int", Deps: []string{"sel_Int"}, SMT: `
+(declare-fun nlast (Int Int) Int)
+(assert (forall ((a Int) (k Int)) (! (=> (<= k 0) (= (nlast a k) (- 1))) :pattern ((nlast a k)))))
+(assert (forall ((a Int) (k Int)) (! (=> (> k 0) (= (nlast a k) (ite (and (not (= (sel_Int a (- k 1)) 0)) (not (= (sel_Int a (- k 1)) (nlast a (- k 1))))) (sel_Int a (- k 1)) (nlast a (- k 1))))) :pattern ((nlast a k)))))
+`})
+	// normS(a,k): k-th normalised action: a[k] if it is a non-Hold different from the last emitted one, else Hold
+	addPrelude(&PreludeFn{Name: "normS", Args: []string{"stream", "int"}, Ret: "int", Deps: []string{"nlast", "sel_Int"}, SMT: `
+(declare-fun normS (Int Int) Int)
+(assert (forall ((a Int) (k Int)) (! (= (normS a k) (ite (and (not (= (sel_Int a k) 0)) (not (= (sel_Int a k) (nlast a k)))) (sel_Int a k) 0)) :pattern ((normS a k)))))
+`})
+	// dlast(a,k): standing recommendation after k inputs (Hold before any non-Hold)
+	addPrelude(&PreludeFn{Name: "dlast", Args: []string{"stream", "int"}, Ret: "int", Deps: []string{"sel_Int"}, SMT: `
+(declare-fun dlast (Int Int) Int)
+(assert (forall ((a Int) (k Int)) (! (=> (<= k 0) (= (dlast a k) 0)) :pattern ((dlast a k)))))
+(assert (forall ((a Int) (k Int)) (! (=> (> k 0) (= (dlast a k) (ite (not (= (sel_Int a (- k 1)) 0)) (sel_Int a (- k 1)) (dlast a (- k 1))))) :pattern ((dlast a k)))))
+`})
+	// nobuy(a,k): none of a[0..k-1] is Buy
+	addPrelude(&PreludeFn{Name: "nobuy", Args: []string{"stream", "int"}, Ret: "bool", Deps: []string{"sel_Int"}, SMT: `
+(declare-fun nobuy (Int Int) Bool)
+(assert (forall ((a Int) (k Int)) (! (=> (<= k 0) (nobuy a k)) :pattern ((nobuy a k)))))
+(assert (forall ((a Int) (k Int)) (! (=> (> k 0) (= (nobuy a k) (and (nobuy a (- k 1)) (not (= (sel_Int a (- k 1)) 1))))) :pattern ((nobuy a k)))))
+`})
+	// bhword(a,k): a[0..k-1] is the buy-and-hold word Buy Hold Hold ...
+	addPrelude(&PreludeFn{Name: "bhword", Args: []string{"stream", "int"}, Ret: "bool", Deps: []string{"sel_Int"}, SMT: `
+(declare-fun bhword (Int Int) Bool)
+(assert (forall ((a Int) (k Int)) (! (=> (<= k 0) (bhword a k)) :pattern ((bhword a k)))))
+(assert (forall ((a Int) (k Int)) (! (=> (> k 0) (= (bhword a k) (and (bhword a (- k 1)) (= (sel_Int a (- k 1)) (ite (= k 1) 1 0))))) :pattern ((bhword a k)))))
+`})
+	// ntrans(a,k): number of non-Hold actions among a[0..k-1]
+	addPrelude(&PreludeFn{Name: "ntrans", Args: []string{"stream", "int"}, Ret: "int", Deps: []string{"sel_Int"}, SMT: `
+(declare-fun ntrans (Int Int) Int)
+(assert (forall ((a Int) (k Int)) (! (=> (<= k 0) (= (ntrans a k) 0)) :pattern ((ntrans a k)))))
+(assert (forall ((a Int) (k Int)) (! (=> (> k 0) (= (ntrans a k) (+ (ntrans a (- k 1)) (ite (= (sel_Int a (- k 1)) 0) 0 1)))) :pattern ((ntrans a k)))))
+`})
 }
